@@ -49,14 +49,33 @@ ExtCountRule(s, e, refcnt, mode) ==
   ELSE IF mode = "never" /\ \E f \in DOMAIN e.ext : e.ext[f] > 0 THEN "Ext.called_in_string"
   ELSE ""
 
-\* C13: what the handler received in this call = the messages the reference run raised in it
-MsgRule(e, refnew) == IF e.msgs # refnew THEN "Msgs.delivery" ELSE ""
+\* C13: what the handler received in this continue = the messages the reference run raised in it, plus those
+\* raised earlier outside any continue; each exactly once (as a bag: the statement fixes no order)
+CountIn(seq, x) == Cardinality({i \in DOMAIN seq : seq[i] = x})
+SameBag(a, b) == \A x \in {a[i] : i \in DOMAIN a} \cup {b[i] : i \in DOMAIN b} : CountIn(a, x) = CountIn(b, x)
+MsgRule(s, e, refnew) ==
+  IF e.op = "cont" THEN (IF SameBag(e.msgs, s.pmsgs \o refnew) THEN "" ELSE "Msgs.delivery")
+  ELSE IF e.msgs # <<>> THEN "Msgs.delivery_outside_continue" ELSE ""
+
+\* C13 without a handler: an error makes that continue return Err, stays readable and stops the story; a
+\* warning never causes Err and is readable afterwards; nothing is handed to a handler that is not there
+NoHandlerRule(s, e, ref) ==
+  LET newerr == e.o.nerr > s.last.nerr
+      newwarn == e.o.nwarn > s.last.nwarn IN
+  IF e.msgs # <<>> THEN "Msgs.no_handler_delivery"
+  ELSE IF e.op = "cont" /\ newerr /\ e.res # "err" THEN "Msgs.error_not_reported"
+  ELSE IF e.op = "cont" /\ ~newerr /\ s.last.nerr = 0 /\ e.res = "err" /\ s.last.canB THEN "Msgs.err_without_error"
+  ELSE IF e.o.nerr < s.last.nerr THEN "Msgs.error_forgotten"
+  ELSE IF e.o.nerr > 0 /\ e.o.canB THEN "Msgs.error_does_not_stop"
+  ELSE IF newwarn /\ e.o.nwarn # s.last.nwarn + Len(ref.newmsgs) - (e.o.nerr - s.last.nerr) THEN "Msgs.warning_lost"
+  ELSE ""
 
 \* all callback rules enabled by the case configuration c; ref is the reference observation after the call
 CallbackRulesOn(s, e, ref, c) ==
   LET r11 == IF c.chk11 /\ e.op = "cont" /\ e.res = "ok" THEN ContNotifyRule(s, e) ELSE ""
       r12 == IF c.chk12 # "" THEN ExtCountRule(s, e, ref.cnt, c.chk12) ELSE ""
-      r13 == IF c.chk13 THEN MsgRule(e, ref.newmsgs) ELSE "" IN
+      r13 == IF c.chk13 = "handler" THEN MsgRule(s, e, ref.newmsgs)
+             ELSE IF c.chk13 = "nohandler" THEN NoHandlerRule(s, e, ref) ELSE "" IN
   IF r11 # "" THEN r11 ELSE IF r12 # "" THEN r12 ELSE r13
 
 =============================================================================
